@@ -21,6 +21,44 @@ def showBuilder : Option (List BuilderStep × Nat) → String
   | some (steps, final) =>
     "chain " ++ " ".intercalate (steps.map fun s => s!"{s.field.name}:{toHex s.prevMask}:{toHex s.nextMask}") ++ s!" final={toHex final}"
 
+/-! ## printing generated bodies (for the AST comparison with the real expansion) -/
+
+def showITy : ITy → String
+  | .u8 => "u8" | .u16 => "u16" | .u32 => "u32" | .u64 => "u64" | .u128 => "u128" | .usize => "usize"
+  | .i8 => "i8" | .i16 => "i16" | .i32 => "i32" | .i64 => "i64" | .i128 => "i128"
+
+def showVar : Var → String
+  | .raw => "raw" | .fieldValue => "field_value" | .index => "index" | .temp => "temp" | .effIndex => "effective_index"
+  | .extracted => "extracted_bits" | .constMask => "MASK" | .value => "value"
+
+def showOp : BinOp → String
+  | .shl => "<<" | .shr => ">>" | .and => "&" | .or => "|" | .add => "+" | .sub => "-" | .mul => "*" | .ne => "!=" | .lt => "<"
+
+partial def showExpr (st : State) : Expr → String
+  | .lit t n => s!"(lit {showITy t} {n})"
+  | .var v => s!"(var {showVar v})"
+  | .bin op a b => s!"(bin {showOp op} {showExpr st a} {showExpr st b})"
+  | .not a => s!"(not {showExpr st a})"
+  | .cast a t => s!"(cast {showExpr st a} {showITy t})"
+  | .ite c a b => s!"(if {showExpr st c} {showExpr st a} {showExpr st b})"
+  | .letE v e b => s!"(let {showVar v} {showExpr st e} {showExpr st b})"
+  | .assertE c b => s!"(assert {showExpr st c} {showExpr st b})"
+  | .extract W n e s => s!"(extract {showITy W} {n} {showExpr st e} {showExpr st s})"
+  | .uintNew n e => s!"(uintnew {n} {showExpr st e})"
+  | .uintValue e => s!"(value {showExpr st e})"
+  | .customNew ty e => s!"(customnew {match st.types[ty]? with | some t => t.name | none => "?"} {showExpr st e})"
+  | .customRaw e => s!"(rawvalue {showExpr st e})"
+
+def bodyLines (st : State) (p : Program) : List String :=
+  let B := p.base
+  [s!"body {p.name} raw_value {showExpr st (rawValueBody B)}", s!"body {p.name} new_with_raw_value {showExpr st (newWithRawBody B)}"] ++
+  (p.fields.map fun fd =>
+    (if fd.getter then match getterBody B fd with
+      | some e => [s!"body {p.name} {fd.name} {showExpr st e}"] | none => [] else []) ++
+    (if fd.setter then match setterBody B fd with
+      | some e => [s!"body {p.name} with_{stripRaw fd.name} {showExpr st e}", s!"body {p.name} set_{stripRaw fd.name} {showExpr st e}"]
+      | none => [] else [])).flatten
+
 /-! ## reading declarations -/
 
 def parseDiscr (s : String) : Discr :=
@@ -301,7 +339,8 @@ def finishEnum (st : State) (e : EnumSyn) : State × List String :=
 def finishDecl (st : State) (d : DeclSyn) : State × List String :=
   match expand st.resolve (customInfoOf st) d with
   | .ok p => ({ st.push (.bitfield d.name p) with curDecl := none },
-      [s!"verdict {d.name} accept", s!"surface {d.name} {showItems p.items}", s!"builder {d.name} {showBuilder p.builder}"])
+      [s!"verdict {d.name} accept", s!"surface {d.name} {showItems p.items}", s!"builder {d.name} {showBuilder p.builder}"]
+        ++ bodyLines st p)
   | .error r => ({ st.push (.rejected d.name) with curDecl := none },
       [s!"verdict {d.name} {showReject r}"])
 
